@@ -75,8 +75,6 @@ class Credits(Mode):
         if self.machine.settings.get_setting_value("free_play"):
             self.enable_free_play(post_event=False)
         else:
-            self._calculate_credit_units()
-            self._calculate_pricing_tiers()
             self.enable_credit_play(post_event=False)
 
     def _reset_earnings(self, **kwargs):
@@ -208,6 +206,10 @@ class Credits(Mode):
     def enable_credit_play(self, post_event=True, **kwargs):
         """Enable credits play."""
         del kwargs
+
+        # (re)calculate here since the machine may have been started in free play
+        self._calculate_credit_units()
+        self._calculate_pricing_tiers()
 
         credit_units = self._get_credit_units()
 
